@@ -71,7 +71,9 @@ def history(sh: Shard, seed, idx):
             elif long_lived:
                 x = 0.1 if step % 40 else 0.9
             if x < 0.5:
-                ch = [(r.choice([r.randrange(0, 1022), 300, 301]), word()) for _ in range(r.choice([0, 1, 1, 2, 5]))]
+                ch = [(r.choice([r.randrange(0, 1022), 300, 301]), word()) for _ in range(r.choice([0, 1, 1, 2, 5, 5, 127, 128, 200, 254]))]
+                if len(ch) >= 128:
+                    sh.count("threaded_statp_with_128_or_more_records")
                 rig.set_sim_block(apply_changes(rig.sim_block, ch))
                 ref = apply_changes(ref, ch)
                 rig.sim_say(P.report_changes(rig.sim._socket, ch, parms=rig.client_parms))
@@ -140,4 +142,5 @@ def add(run, tier, seed):
     run.need(run.counters.get("threaded_points_matched", 0) > 200, "threaded client: too few comparison points")
     run.need(run.counters.get("threaded_early_statp", 0) > 10, "threaded client: no partial update during the handshake")
     run.need(run.counters.get("threaded_acks_ok", 0) > 100, "threaded client: too few acknowledgements")
+    run.need(run.counters.get("threaded_statp_with_128_or_more_records", 0) >= 5, "threaded client: no partial update with 128 or more records")
     run.need(run.counters.get("threaded_long_connections", 0) >= 1, "threaded client: the long-lived connection was not driven")
